@@ -4,6 +4,11 @@ from the sub-agents' output directories and the log of tools/seedtest.sh runs.  
 import json, os, re, shutil, sys
 OUT = "/verif/seeded"
 SRC = "/tmp/seed_out"
+# changes that only manifest in a release build: confirmed by hand with `cargo test --offline --release --test demo`
+OVERRIDES = {
+    "C17-A": "only manifests in a release build: scratch worktree, `cargo test --offline --release --test demo`: unchanged tree 4 passed; with the patch 1 passed, 3 failed (debug build with the patch: 4 passed); `cargo test --offline --lib` with the patch: 55 passed",
+    "C17-C": "only manifests in a release build: scratch worktree, `cargo test --offline --release --test demo`: unchanged tree 3 passed; with the patch 2 of 3 failed (debug build with the patch: 3 passed); `cargo test --offline --lib` with the patch: 55 passed",
+}
 runs = {}
 for log in sys.argv[1:]:
     cur = None
@@ -58,5 +63,9 @@ for (pid, x), rl in sorted(runs.items()):
                        for i, rr in enumerate(rl) for k, v in rr["checks"].items()],
         "note": "run 1 = the machinery as it was when the change was first tried; later runs = after the strengthening described in DESIGN.md section 14",
     }
+    ov = OVERRIDES.get(meta["id"])
+    if ov:
+        meta["confirmed_by_me"] = True
+        meta["confirmation"]["note"] = ov
     json.dump(meta, open(os.path.join(d, "meta.json"), "w"), indent=1)
     print(meta["id"], "confirmed" if confirmed else "NOT CONFIRMED", [(c["run"], c["check"], c["exit"]) for c in meta["checks_run"]])
